@@ -87,6 +87,9 @@ func cmdCheck(args []string) int {
 		timeout = 60
 	}
 	outDir := filepath.Join(verifDir, "out", prop)
+	if s := os.Getenv("VERIF_SCRATCH"); s != "" {
+		outDir = filepath.Join(verifDir, "out", s, prop)
+	}
 	os.RemoveAll(outDir)
 	os.MkdirAll(outDir, 0o755)
 
@@ -152,6 +155,20 @@ func cmdCheck(args []string) int {
 		if f.Kind == "finding" { // a finding is identified by its obligation; it is reported under every property the obligation serves
 			expectFail[f.Obligation] = true
 		}
+	}
+	// obligations withdrawn from the claim (/verif/unclaimed.json): not discharged, not counted, listed in the evidence
+	unclaimed := loadUnclaimed()
+	var notClaimed []string
+	{
+		var kept []*Obligation
+		for _, o := range obls {
+			if reason, ok := unclaimed[o.Name]; ok {
+				notClaimed = append(notClaimed, o.Name+" — "+reason)
+				continue
+			}
+			kept = append(kept, o)
+		}
+		obls = kept
 	}
 	var normal, expected []*Obligation
 	for _, o := range obls {
@@ -222,6 +239,8 @@ func cmdCheck(args []string) int {
 	cov["by_backend"] = backends
 	cov["solver_s_total"] = round3(solverTotal)
 	cov["waived_known_findings"] = waived
+	sort.Strings(notClaimed)
+	cov["not_claimed"] = notClaimed // withdrawn obligations; pre@/inv ones among them are ASSUMED by later obligations
 	cov["vacuity_covers_checked"] = len(covers)
 	var samples []interface{}
 	for i, o := range obls {
@@ -246,9 +265,13 @@ func cmdCheck(args []string) int {
 	}, notes...)
 	ev["wall_s"] = round3(time.Since(t0).Seconds())
 	ev["violations"] = len(failed)
-	os.MkdirAll(filepath.Join(verifDir, "evidence"), 0o755)
+	evDir := filepath.Join(verifDir, "evidence")
+	if s := os.Getenv("VERIF_SCRATCH"); s != "" {
+		evDir = filepath.Join(verifDir, "out", s, "evidence") // mutant / seeded runs must not overwrite the real evidence
+	}
+	os.MkdirAll(evDir, 0o755)
 	b, _ := json.MarshalIndent(ev, "", " ")
-	os.WriteFile(filepath.Join(verifDir, "evidence", prop+".json"), append(b, '\n'), 0o644)
+	os.WriteFile(filepath.Join(evDir, prop+".json"), append(b, '\n'), 0o644)
 
 	fmt.Printf("govc %s %s: %d obligations, %d discharged, %d known-finding instances waived, %d functions/lemmas, %.1fs\n",
 		prop, tier, nObl, len(discharged), len(waived), len(funcs), time.Since(t0).Seconds())
@@ -305,6 +328,9 @@ func trustedBase(e *Engine) []string {
 // WriteReplay writes the replay file of a failed obligation.
 func (e *Engine) WriteReplay(prop string, o *Obligation, outDir string) string {
 	dir := filepath.Join(verifDir, "replays", prop)
+	if s := os.Getenv("VERIF_SCRATCH"); s != "" {
+		dir = filepath.Join(verifDir, "out", s, "replays", prop)
+	}
 	os.MkdirAll(dir, 0o755)
 	path := filepath.Join(dir, strings.TrimSuffix(o.fileName(), ".smt2")+".json")
 	rep := map[string]interface{}{
